@@ -11,6 +11,13 @@ MERGED = "metrique-writer-core/src/entry/merged.rs"
 ENTRY = "metrique-writer-core/src/entry/mod.rs"
 VALUE = "metrique-writer-core/src/value/mod.rs"
 ROOT = "metrique/src/lib.rs"
+INFL = "metrique-core/src/inflectable_entry_impls.rs"
+
+def r24_empty_iter(text):
+    """[].into_iter()  ->  verif_empty_iter()"""
+    n = text.count("[].into_iter()")
+    return text.replace("[].into_iter()", "verif_empty_iter()"), n
+
 
 PRELUDE = r'''
 use std::sync::Arc;
@@ -20,17 +27,47 @@ pub enum Item { Timestamp(int), Config(int), Value(Seq<char>, int) }
 pub trait EntryWriter<'a> {
     spec fn log(&self) -> Seq<Item>;
 }
+// R23: what `impl Iterator<Item = SampleGroupElement>` denotes: the (key, value) pairs it will yield, in order
+#[verifier::external_body]
+pub struct VerifIter { _p: u8 }
+impl VerifIter {
+    pub uninterp spec fn elems(&self) -> Seq<int>;
+    // Iterator::chain: first all of self, then all of other
+    #[verifier::external_body]
+    pub fn chain(self, other: VerifIter) -> (r: VerifIter) ensures r.elems() == self.elems() + other.elems() { unimplemented!() }
+}
+// R24: `[].into_iter()` - the empty iterator
+#[verifier::external_body]
+pub fn verif_empty_iter() -> (r: VerifIter) ensures r.elems() == Seq::<int>::empty() { unimplemented!() }
+// itertools::Either::{Left, Right} as an iterator: yields what the wrapped iterator yields
+pub mod itertools { pub mod Either {
+    use vstd::prelude::*;
+    #[verifier::external_body]
+    pub fn Left(i: super::super::VerifIter) -> (r: super::super::VerifIter) ensures r.elems() == i.elems() { unimplemented!() }
+    #[verifier::external_body]
+    pub fn Right(i: super::super::VerifIter) -> (r: super::super::VerifIter) ensures r.elems() == i.elems() { unimplemented!() }
+}}
 pub trait Entry {
     spec fn items(&self) -> Seq<Item>;
+    spec fn groups(&self) -> Seq<int>;
     // the contract every entry meets: it appends exactly its items, in order, and nothing else
     fn write<'a, VerifI0: EntryWriter<'a>>(&'a self, writer: &mut VerifI0)
         ensures final(writer).log() == old(writer).log() + self.items();
+    // ... and its sample group is exactly groups(), in order
+    fn sample_group(&self) -> (r: VerifIter)
+        ensures r.elems() == self.groups();
 }
 // InflectableEntry (metrique-core): same contract, for closed #[metrics] structs
-pub trait InflectableEntry {
+pub trait NameStyle {}
+pub struct Identity {}
+impl NameStyle for Identity {}
+pub trait InflectableEntry<NS: NameStyle = Identity> {
     spec fn items(&self) -> Seq<Item>;
+    spec fn groups(&self) -> Seq<int>;
     fn write<'a, VerifI0: EntryWriter<'a>>(&'a self, writer: &mut VerifI0)
         ensures final(writer).log() == old(writer).log() + self.items();
+    fn sample_group(&self) -> (r: VerifIter)
+        ensures r.elems() == self.groups();
 }
 
 // values: a ValueWriter is consumed by the one call that writes to it; `value_written(w, e)` is only
@@ -44,29 +81,56 @@ pub trait Value {
 }
 '''
 
-FWD_ITEMS = "    open spec fn items(&self) -> Seq<Item> { (**self).items() }\n"
+FWD_ITEMS = "    open spec fn items(&self) -> Seq<Item> { (**self).items() }\n    open spec fn groups(&self) -> Seq<int> { (**self).groups() }\n"
 FWD_EFFECT = "    open spec fn effect(&self) -> int { (**self).effect() }\n"
 
 ITEMS = [
     dict(kind="struct", file=MERGED, name="Merged", attrs=["#[verifier::reject_recursive_types(E1)]", "#[verifier::reject_recursive_types(E2)]"]),
     dict(kind="fn", file=MERGED, impl=r"^impl < E1 : Entry , E2 : Entry > Entry for Merged < E1 , E2 >$", name="write", impl_trait_args=True, rules={"R14": 1}, label="Merged::write",
          impl_extra="    // documented: the first entry's fields come first (globals first in merge_globals)\n"
-                    "    open spec fn items(&self) -> Seq<Item> { self.0.items() + self.1.items() }\n"),
+                    "    open spec fn items(&self) -> Seq<Item> { self.0.items() + self.1.items() }\n"
+                    "    // sample groups are preserved the same way: the first entry's, then the second's\n"
+                    "    open spec fn groups(&self) -> Seq<int> { self.0.groups() + self.1.groups() }\n"),
+    dict(kind="fn", file=MERGED, impl=r"^impl < E1 : Entry , E2 : Entry > Entry for Merged < E1 , E2 >$", name="sample_group", ret_iter="VerifIter", label="Merged::sample_group", rules={"R23": 1}),
     dict(kind="struct", file=MERGED, name="MergedRef"),
     dict(kind="fn", file=MERGED, impl=r"^impl < E1 : Entry \+ \? Sized , E2 : Entry \+ \? Sized > Entry for MergedRef < '_ , E1 , E2 >$", name="write", impl_trait_args=True, rules={"R14": 1}, label="MergedRef::write",
-         impl_extra="    open spec fn items(&self) -> Seq<Item> { self.0.items() + self.1.items() }\n"),
+         impl_extra="    open spec fn items(&self) -> Seq<Item> { self.0.items() + self.1.items() }\n"
+                    "    // sample groups are preserved the same way: the first entry's, then the second's\n"
+                    "    open spec fn groups(&self) -> Seq<int> { self.0.groups() + self.1.groups() }\n"),
+    dict(kind="fn", file=MERGED, impl=r"^impl < E1 : Entry \+ \? Sized , E2 : Entry \+ \? Sized > Entry for MergedRef < '_ , E1 , E2 >$", name="sample_group", ret_iter="VerifIter", label="MergedRef::sample_group", rules={"R23": 1}),
     dict(kind="fn", file=ENTRY, impl=r"^impl < T : Entry \+ \? Sized > Entry for & T$", name="write", impl_trait_args=True, rules={"R14": 1}, label="<&T as Entry>::write",
          impl_extra=FWD_ITEMS),
+    dict(kind="fn", file=ENTRY, impl=r"^impl < T : Entry \+ \? Sized > Entry for & T$", name="sample_group", ret_iter="VerifIter", label="<&T as Entry>::sample_group", rules={"R23": 1}),
     dict(kind="fn", file=ENTRY, impl=r"^impl < T : Entry > Entry for Option < T >$", name="write", impl_trait_args=True, rules={"R14": 1}, label="<Option<T> as Entry>::write",
          impl_extra="    // an absent entry contributes nothing\n"
-                    "    open spec fn items(&self) -> Seq<Item> { if self is Some { self->0.items() } else { Seq::<Item>::empty() } }\n"),
+                    "    open spec fn items(&self) -> Seq<Item> { if self is Some { self->0.items() } else { Seq::<Item>::empty() } }\n"
+                    "    open spec fn groups(&self) -> Seq<int> { if self is Some { self->0.groups() } else { Seq::<int>::empty() } }\n"),
+    dict(kind="fn", file=ENTRY, impl=r"^impl < T : Entry > Entry for Option < T >$", name="sample_group", ret_iter="VerifIter", label="<Option<T> as Entry>::sample_group", rules={"R23": 1, "r24_empty_iter": 1}, extra_rewrites=[r24_empty_iter]),
     dict(kind="fn", file=ENTRY, impl=r"^impl < T : Entry \+ \? Sized > Entry for Box < T >$", name="write", impl_trait_args=True, rules={"R14": 1}, label="<Box<T> as Entry>::write",
          impl_extra=FWD_ITEMS),
+    dict(kind="fn", file=ENTRY, impl=r"^impl < T : Entry \+ \? Sized > Entry for Box < T >$", name="sample_group", ret_iter="VerifIter", label="<Box<T> as Entry>::sample_group", rules={"R23": 1}),
     dict(kind="fn", file=ENTRY, impl=r"^impl < T : Entry \+ \? Sized > Entry for Arc < T >$", name="write", impl_trait_args=True, rules={"R14": 1}, label="<Arc<T> as Entry>::write",
          impl_extra=FWD_ITEMS),
+    dict(kind="fn", file=ENTRY, impl=r"^impl < T : Entry \+ \? Sized > Entry for Arc < T >$", name="sample_group", ret_iter="VerifIter", label="<Arc<T> as Entry>::sample_group", rules={"R23": 1}),
     dict(kind="struct", file=ROOT, name="RootEntry", attrs=["#[verifier::reject_recursive_types(M)]"]),
     dict(kind="fn", file=ROOT, impl=r"^impl < M : InflectableEntry > Entry for RootEntry < M >$", name="write", impl_trait_args=True, rules={"R14": 1}, label="RootEntry::write",
-         impl_extra="    open spec fn items(&self) -> Seq<Item> { self.metric.items() }\n"),
+         impl_extra="    open spec fn items(&self) -> Seq<Item> { self.metric.items() }\n"
+                    "    open spec fn groups(&self) -> Seq<int> { self.metric.groups() }\n"),
+    dict(kind="fn", file=ROOT, impl=r"^impl < M : InflectableEntry > Entry for RootEntry < M >$", name="sample_group", ret_iter="VerifIter", label="RootEntry::sample_group", rules={"R23": 1}),
+    # ---- InflectableEntry<NS> forwarding impls (metrique-core)
+    dict(kind="fn", file=INFL, impl=r"^impl < NS : NameStyle , T : InflectableEntry < NS >> InflectableEntry < NS > for & T$", name="write", impl_trait_args=True, rules={"R14": 1}, label="<&T as InflectableEntry>::write",
+         impl_extra=FWD_ITEMS),
+    dict(kind="fn", file=INFL, impl=r"^impl < NS : NameStyle , T : InflectableEntry < NS >> InflectableEntry < NS > for & T$", name="sample_group", ret_iter="VerifIter", label="<&T as InflectableEntry>::sample_group", rules={"R23": 1}),
+    dict(kind="fn", file=INFL, impl=r"^impl < NS : NameStyle , T : InflectableEntry < NS >> InflectableEntry < NS > for Option < T >$", name="write", impl_trait_args=True, rules={"R14": 1}, label="<Option<T> as InflectableEntry>::write",
+         impl_extra="    open spec fn items(&self) -> Seq<Item> { if self is Some { self->0.items() } else { Seq::<Item>::empty() } }\n"
+                    "    open spec fn groups(&self) -> Seq<int> { if self is Some { self->0.groups() } else { Seq::<int>::empty() } }\n"),
+    dict(kind="fn", file=INFL, impl=r"^impl < NS : NameStyle , T : InflectableEntry < NS >> InflectableEntry < NS > for Option < T >$", name="sample_group", ret_iter="VerifIter", label="<Option<T> as InflectableEntry>::sample_group", rules={"R23": 1, "r24_empty_iter": 1}, extra_rewrites=[r24_empty_iter]),
+    dict(kind="fn", file=INFL, impl=r"^impl < NS : NameStyle , T : InflectableEntry < NS > \+ \? Sized > InflectableEntry < NS > for Box < T >$", name="write", impl_trait_args=True, rules={"R14": 1}, label="<Box<T> as InflectableEntry>::write",
+         impl_extra=FWD_ITEMS),
+    dict(kind="fn", file=INFL, impl=r"^impl < NS : NameStyle , T : InflectableEntry < NS > \+ \? Sized > InflectableEntry < NS > for Box < T >$", name="sample_group", ret_iter="VerifIter", label="<Box<T> as InflectableEntry>::sample_group", rules={"R23": 1}),
+    dict(kind="fn", file=INFL, impl=r"^impl < NS : NameStyle , T : InflectableEntry < NS > \+ \? Sized > InflectableEntry < NS > for Arc < T >$", name="write", impl_trait_args=True, rules={"R14": 1}, label="<Arc<T> as InflectableEntry>::write",
+         impl_extra=FWD_ITEMS),
+    dict(kind="fn", file=INFL, impl=r"^impl < NS : NameStyle , T : InflectableEntry < NS > \+ \? Sized > InflectableEntry < NS > for Arc < T >$", name="sample_group", ret_iter="VerifIter", label="<Arc<T> as InflectableEntry>::sample_group", rules={"R23": 1}),
     # ---- values
     dict(kind="fn", file=VALUE, impl=r"^impl < T : Value \+ \? Sized > Value for & T$", name="write", impl_trait_args=True, rules={"R14": 1}, label="<&T as Value>::write",
          impl_extra=FWD_EFFECT),
